@@ -224,15 +224,19 @@ def wait_budget(ctx: Ctx, rule: str) -> None:
             tries = rest[0]
     # (B1) the tries factor is at least 1 for every accepted max_tries (should_rerun rejects only negative values: 0 means 'no retries')
     if not why:
-        mt = "next.params.get_numeric('max_tries', 1)"
+        def is_mt(a):
+            # the node's max_tries, whatever its default (the agreement of the defaults is rule C04.13)
+            return isinstance(a, ast.Call) and ast.unparse(a.func) == "next.params.get_numeric" and a.args and isinstance(a.args[0], ast.Constant) and a.args[0].value == "max_tries"
+
+        mt = "next.params.get_numeric('max_tries', ...)"
         t = tries
         floor_ok = (isinstance(t, ast.Call) and isinstance(t.func, ast.Name) and t.func.id == "max" and len(t.args) == 2 and not t.keywords
-                    and sorted(ast.unparse(a) for a in t.args if not isinstance(a, ast.Constant)) == [mt]
+                    and [is_mt(a) for a in t.args if not isinstance(a, ast.Constant)] == [True]
                     and any(isinstance(a, ast.Constant) and isinstance(a.value, (int, float)) and a.value >= 1 for a in t.args))
         if not floor_ok:
             neg = ctx.repo.func("cartgraph/node.py:TestNode.should_rerun")
             rejects_zero = any(isinstance(c, ast.Compare) and ast.unparse(c) in ("max_tries < 1", "max_tries <= 0") for c in ast.walk(neg.node))
-            if ast.unparse(t) != mt or not rejects_zero:
+            if not is_mt(t) or not rejects_zero:
                 why = (f"the tries factor of the wait budget is `{ast.unparse(t)}`: max_tries=0 is an accepted setting (only negative values are rejected, 0 runs the test once) "
                        "and makes the budget zero, so a waiting worker joins a running test after its second poll")
     # (B2) an execution that consists of k consecutive test runs keeps the node occupied for k timeouts
@@ -284,6 +288,9 @@ def sync_errors(ctx: Ctx, rule: str) -> None:
 
 def run(ctx: Ctx) -> None:
     ctx.call(wait_budget, "14")
+    from .c04 import tries_default_agreement
+
+    ctx.call(tries_default_agreement, "14d")
     ctx.call(sync_errors, "15")
     from .c10 import creation_ids
 
